@@ -43,6 +43,7 @@ type Engine struct {
 	modsets   map[*ssa.Function]*modset
 	unmodelled map[string]int
 	trustedUsed map[string]bool
+	assumedInv  map[string]bool
 	pendingHavoc map[string]bool
 	srcCache  map[string][]byte
 	fileOf    map[*ssa.Function]*ast.File
@@ -55,7 +56,7 @@ type Engine struct {
 func loadEngine(repo, specDir string) (*Engine, error) {
 	eng := &Engine{repo: repo, famSorts: map[string]string{}, specFuncs: map[string]specFunc{}, seqFuncs: map[string]specFunc{},
 		typeIDs: map[string]int{}, funcIDs: map[*ssa.Function]int{}, globalIdx: map[*ssa.Global]int{}, globalByAddr: map[Term]*ssa.Global{},
-		modsets: map[*ssa.Function]*modset{}, unmodelled: map[string]int{}, trustedUsed: map[string]bool{},
+		modsets: map[*ssa.Function]*modset{}, unmodelled: map[string]int{}, trustedUsed: map[string]bool{}, assumedInv: map[string]bool{},
 		pendingHavoc: map[string]bool{}, deferred: map[string]bool{}, srcCache: map[string][]byte{}, spkgs: map[string]*ssa.Package{}, specDir: specDir}
 	fset := token.NewFileSet()
 	eng.fset = fset
@@ -110,7 +111,7 @@ func (eng *Engine) loadSpecs() error {
 	files, _ := filepath.Glob(filepath.Join(eng.specDir, "*.smt2"))
 	sort.Strings(files)
 	var b strings.Builder
-	b.WriteString("; address arithmetic: adr(base, k) = base + k (uninterpreted so that triggers match)\n(declare-fun adr (Int Int) Int)\n(assert (forall ((b Int) (k Int)) (! (= (adr b k) (+ b k)) :pattern ((adr b k)))))\n")
+	b.WriteString("; address arithmetic: adr(base, k) = base + k (uninterpreted so that triggers match)\n(declare-fun adr (Int Int) Int)\n(assert (forall ((b Int) (k Int)) (! (= (adr b k) (+ b k)) :pattern ((adr b k)))))\n; read-only maps: number of entries of the map behind a handle\n(declare-fun maplen (Int) Int)\n(declare-fun maplo (Int) Int)\n(declare-fun maphi (Int) Int)\n")
 	for _, f := range files {
 		data, err := os.ReadFile(f)
 		if err != nil {
